@@ -143,3 +143,14 @@ Theorem c18_dispatcher_last_update_is_current : forall (acts : list daction) (c 
   exists a, d_cur (drun acts) = Some a /\ last_update c = Some (filter_ns (dc_ns c) a).
 Proof. exact dispatcher_last_update_is_current. Qed.
 Print Assumptions c18_dispatcher_last_update_is_current.
+
+(* The client's shard map with the leader attached to every shard ([option N]: known or not; an assignment is
+   published with an empty leader while a shard has none).  update never looks at it: ids and ranges after the
+   update are those of the leaderless model, so the map is the update's partition whether or not leaders are known. *)
+Theorem c18_client_update_independent_of_leaders : forall (m upd : list (lshard (option N))),
+  disjoint_map (map fst m) -> partition (map fst upd) -> NoDup (map sid (map fst upd)) ->
+  (forall x u, In x (map fst m) -> In u (map fst upd) -> sid x = sid u -> x = u) ->
+  Permutation (map fst (client_update_l (option N) m upd)) (map fst upd) /\
+  disjoint_map (map fst (client_update_l (option N) m upd)).
+Proof. exact (client_update_partition_with_leaders (option N)). Qed.
+Print Assumptions c18_client_update_independent_of_leaders.
